@@ -246,3 +246,56 @@ M('heartbeat-emits-abort', ['C18'], LN, "            self._stop_event.wait(self.
 M('run-id-regenerated', ['C18'], LN, "        self._stop_event.clear()\n        self._thread = threading.Thread(target=self._heartbeat_loop, daemon=True)", "        self._stop_event.clear()\n        self.run_id = self.get_run_id()\n        self._thread = threading.Thread(target=self._heartbeat_loop, daemon=True)", ['C18.R3'])
 M('start-after-heartbeat', ['C18'], F, "            self.emitter.emit_start(facets=facets)\n            self.emitter.start_lineage_heart_beat()", "            self.emitter.start_lineage_heart_beat()\n            self.emitter.emit_start(facets=facets)", ['C18.R3'])
 M('emit-before-init', ['C18'], F, "                cls.filter_name = filter.__class__.__name__\n                filter.init(filter.config)", "                cls.filter_name = filter.__class__.__name__\n                if filter.emitter is not None:\n                    filter.emitter.emit_stop()\n                filter.init(filter.config)", ['C18.R1'])
+
+# ------------------------------------------------------------------------------------------------ C10 / C16 / C17
+
+M('ro_rgb-caches-unconditionally', ['C10'], FR, """            new = Frame(new_image := cv2.cvtColor(image := self.image, cv2.COLOR_RGB2BGR), self, 'RGB')
+
+            if not image.flags.writeable:  # only cache the conversion of an image which can not change
+                self.__ro_rgb = new""", """            new = Frame(new_image := cv2.cvtColor(image := self.image, cv2.COLOR_RGB2BGR), self, 'RGB')
+            self.__ro_rgb = new""", ['C10.R1'])
+M('jpg-caches-writable', ['C10'], FR, "            if not image.flags.writeable:  # if we are a readonly image then cache encoded jpg\n                self.__jpg = jpg", "            self.__jpg = jpg", ['C10.R1'])
+M('rgb-caches-writable', ['C10'], FR, "            new = Frame(cv2.cvtColor(image, cv2.COLOR_RGB2BGR), self, 'RGB')\n        elif (new := getattr(self, '_Frame__ro_rgb', None)) is not None:", "            self.__ro_rgb = new = Frame(cv2.cvtColor(image, cv2.COLOR_RGB2BGR), self, 'RGB')\n        elif (new := getattr(self, '_Frame__ro_rgb', None)) is not None:", ['C10.R1'])
+M('from_blob-no-freeze', ['C10'], FR, "            if is_jpg:\n                image.flags.writeable = False", "            if is_jpg and False:\n                image.flags.writeable = False", ['C10.R2'])
+M('image-lazy-no-freeze', ['C10'], FR, "            self.__image          = image = Frame.decode(self.__jpg, self.__shapef[1])\n            image.flags.writeable = False", "            self.__image          = image = Frame.decode(self.__jpg, self.__shapef[1])", ['C10.R2'])
+M('rw-no-copy', ['C10'], FR, "        return Frame(self.image.copy(), self, self.__shapef[1])", "        return Frame(self.image, self, self.__shapef[1])", ['C10.R3'])
+M('ro-view-not-copy', ['C10'], FR, "        new                   = Frame(image := self.image.copy(), self, self.__shapef[1])", "        new                   = Frame(image := self.image[:], self, self.__shapef[1])", ['C10.R3'])
+M('rw_rgb-aliases', ['C10'], FR, "            return self if (image := self.image).flags.writeable else Frame(image.copy(), self, 'RGB')", "            return self if (image := self.image).flags.writeable else Frame(image, self, 'RGB')", ['C10.R3'])
+M('lift-writeable', ['C10'], FR, "        if (image := self.__image) is None or (image is not False and image.flags.writeable):\n            return self\n", "        if (image := self.__image) is None or (image is not False and image.flags.writeable):\n            return self\n\n        if image is not False:\n            image.flags.writeable = True\n            return self\n", ['C10.R4'])
+M('lift-in-util', ['C10'], UT, "        image = frame.rw.image\n", "        image = frame.image\n        image.setflags(write=True)\n", ['C10.R4'])
+M('ro-not-frozen', ['C10'], FR, "        new                   = Frame(image := self.image.copy(), self, self.__shapef[1])\n        image.flags.writeable = False", "        new                   = Frame(image := self.image.copy(), self, self.__shapef[1])", ['C10.R5'])
+M('ro_bgr-not-frozen', ['C10'], FR, "                self.__ro_bgr = new\n\n        new_image.flags.writeable = False", "                self.__ro_bgr = new\n", ['C10.R5'])
+M('gray-wrong-code', ['C10'], FR, "            new = Frame(cv2.cvtColor(image, cv2.COLOR_RGB2GRAY if format == 'RGB' else cv2.COLOR_BGR2GRAY), self, 'GRAY')", "            new = Frame(cv2.cvtColor(image, cv2.COLOR_BGR2GRAY if format == 'RGB' else cv2.COLOR_RGB2GRAY), self, 'GRAY')", ['C10.R6'])
+M('bgr-wrong-label', ['C10'], FR, "            new = Frame(cv2.cvtColor(image, cv2.COLOR_RGB2BGR), self, 'BGR')", "            new = Frame(cv2.cvtColor(image, cv2.COLOR_RGB2BGR), self, 'RGB')", ['C10.R6'])
+M('copy-shares-writable', ['C10'], FR, "        if isinstance(image := self.__image, ndarray) and image.flags.writeable:\n            copy.__image = image.copy()", "        if isinstance(image := self.__image, ndarray) and not image.flags.writeable:\n            copy.__image = image.copy()", ['C10.R6'])
+
+M('export-D6-shape', ['C16'], BR, "                        if self._allow is not None and not self._is_allowed(name):", "                        if self._allow and not self._is_allowed(name):", ['C16.R1'])
+M('is_allowed-D6-shape', ['C16'], BR, "        if self._allow is None:\n            return True", "        if not self._allow:\n            return True", ['C16.R2'])
+M('export-no-test', ['C16'], BR, "                        if self._allow is not None and not self._is_allowed(name):", "                        if False and not self._is_allowed(name):", ['C16.R1'])
+M('export-gauge-before-test', ['C16'], BR, "                        name = dp.name\n", "                        name = dp.name\n                        facet[name] = 0\n", ['C16.R1'])
+M('is_allowed-prefix-match', ['C16'], BR, "        # Check exact match\n        if metric_name in self._allow:\n            return True", "        # Check exact match\n        if metric_name in self._allow or metric_name.startswith('sys'):\n            return True", ['C16.R2'])
+M('read_allowlist-default-star', ['C16'], CF, "    # Default: empty set (lock-down mode)\n    return set()", "    # Default: empty set (lock-down mode)\n    return set(['*'])", ['C16.R3'])
+M('client-drops-allowlist', ['C16'], CL, "lineage_exporter = OTelLineageExporter(lineage_emitter, allowlist=allowlist)", "lineage_exporter = OTelLineageExporter(lineage_emitter, allowlist=allowlist or None)", ['C16.R3'])
+M('exporter-normalises-allow', ['C16'], BR, "        self._allow = allowlist\n", "        self._allow = allowlist or None\n", ['C16.R3'])
+M('hist-no-pad', ['C16'], BR, "                                    else:\n                                        bucket_counts.extend([0] * (len(explicit_bounds) + 1 - len(bucket_counts)))", "                                    else:\n                                        pass", ['C16.R4'])
+M('hist-raw-counts', ['C16'], BR, "bucket_counts = [int(count) for count in point.bucket_counts] if hasattr(point, 'bucket_counts') else []", "bucket_counts = list(point.bucket_counts) if hasattr(point, 'bucket_counts') else []", ['C16.R4'])
+
+M('util-D7-shape', ['C17'], UT, "            w = max(1, min(w, width))  # max(1, ...) because extreme aspect ratios can round a dimension down to 0\n            h = max(1, min(h, height))", "            w = min(w, width)\n            h = min(h, height)", ['C17.R2'])
+M('util-maxsize-no-cap', ['C17'], UT, "            w = max(1, min(w, width))  # max(1, ...) because extreme aspect ratios can round a dimension down to 0", "            w = max(1, w)  # max(1, ...) because extreme aspect ratios can round a dimension down to 0", ['C17.R1'])
+M('util-minsize-min', ['C17'], UT, "            w = max(w, width)\n            h = max(h, height)", "            w = min(w, width)\n            h = max(h, height)", ['C17.R1'])
+M('util-resize-swapped', ['C17'], UT, "            w = width\n            h = height", "            w = height\n            h = width", ['C17.R1'])
+M('video-D7-shape', ['C17'], VI, "newsize = (width, max(1, int(h * width / w)))", "newsize = (width, int(h * width / w))", ['C17.R2'])
+M('video-maxsize-no-cap', ['C17'], VI, "(newsize := (max(1, min(width, w)), max(1, min(height, h))))", "(newsize := (max(1, w), max(1, min(height, h))))", ['C17.R1'])
+M('video-scales-wrong-side', ['C17'], VI, """                                if not hgt:
+                                    h = int(h * width / w)
+                                elif not wgt:
+                                    w = int(w * height / h)""", """                                if not hgt:
+                                    w = int(w * height / h)
+                                elif not wgt:
+                                    h = int(h * width / w)""", ['C17.R1'])
+M('normalize-accepts-extra-action', ['C17'], UT, "'swaprgb', 'fmtrgb', 'fmtbgr', 'fmtgray'):\n                        if args:", "'swaprgb', 'fmtrgb', 'fmtbgr', 'fmtgray', 'transpose'):\n                        if args:", ['C17.R3'])
+M('execute-misses-action', ['C17'], UT, "            elif action == 'rotccw':\n                frame = Frame(cv2.rotate(frame.image, cv2.ROTATE_90_COUNTERCLOCKWISE), frame)\n", "", ['C17.R3'])
+M('flipx-wrong-code', ['C17'], UT, "                frame = Frame(cv2.flip(frame.image, 1), frame)", "                frame = Frame(cv2.flip(frame.image, 0), frame)", ['C17.R4'])
+M('rot-swapped', ['C17'], UT, "                frame = Frame(cv2.rotate(frame.image, cv2.ROTATE_90_CLOCKWISE), frame)", "                frame = Frame(cv2.rotate(frame.image, cv2.ROTATE_90_COUNTERCLOCKWISE), frame)", ['C17.R4'])
+M('box-colour-not-reversed', ['C17'], UT, "        elif frame.is_bgr:\n            c = c[::-1]", "        elif frame.is_rgb:\n            c = c[::-1]", ['C17.R4'])
+M('fmtgray-wrong-accessor', ['C17'], UT, "            elif action == 'fmtgray':\n                frame = frame.gray", "            elif action == 'fmtgray':\n                frame = frame.bgr", ['C17.R4'])
